@@ -85,6 +85,11 @@ func runProperty(id string, def propDef, tier string, seed int64) (code int) {
 				return
 			}
 			curProgram = p
+			if os.Getenv("VERIF_DUMP_SYMBOLS") != "" {
+				if err := dumpSymbols(p, os.Getenv("VERIF_DUMP_SYMBOLS")); err != nil {
+					fmt.Println("dump-symbols:", err)
+				}
+			}
 			if len(p.Pkgs) != 9 {
 				rep.Undec(id+".load", "loader["+name+"]", "", fmt.Sprintf("expected 9 repository packages, loaded %d", len(p.Pkgs)))
 			}
